@@ -76,6 +76,7 @@ def gen_content(rng, kind):
     C.hgmd = {}
     if rng.random() < 0.5:
         C.hgmd = {"name": rng.choice(["g", "h"]), "info": {"v": [1, 2]}}
+    C.replace_hgmd = rng.random() < 0.2  # the user replaces the whole metadata dict (bookkeeping keys gone)
     return C, labels, uni
 
 
@@ -157,6 +158,8 @@ def construct(rng, kind, C, labels, style):
     if style["detours"]:
         pre_nodes = set(C.nodes)
         detour()
+    if getattr(C, "replace_hgmd", False):
+        h.set_hypergraph_metadata(copy.deepcopy(dict(C.hgmd)))
     return h
 
 
@@ -236,6 +239,8 @@ def run_case(ctx, rng, idx):
         want.hgmd = dict(S.hgmd)  # bookkeeping keys (weighted/type) are whatever the constructor sets...
         for f, v in C.hgmd.items():
             want.hgmd[f] = v
+        if getattr(C, "replace_hgmd", False):
+            want.hgmd = dict(C.hgmd)
         if typed(S) != typed(want):
             ctx.note(f"construction-missed-content:{kind}")
             continue
@@ -279,6 +284,16 @@ def run_case(ctx, rng, idx):
             edits.append(("change-layer", lambda g: (_remove(g, kind, k0, rng), _add(g, kind, (k0[0], other[0]), C.edges[k0][0] if C.weighted else None, copy.deepcopy(C.edges[k0][1]), rng))))
     if kind == "D" and (k0[1], k0[0]) not in C.edges:
         edits.append(("swap-direction", lambda g: (_remove(g, kind, k0, rng), _add(g, kind, (k0[1], k0[0]), C.edges[k0][0] if C.weighted else None, copy.deepcopy(C.edges[k0][1]), rng))))
+    if C.weighted and isinstance(C.edges[k0][0], float):
+        import math
+
+        w0 = C.edges[k0][0]
+        edits.append(("change-weight-by-one-ulp", lambda g: g.set_weight(*lib_args(kind, k0, rng), math.nextafter(w0, math.inf))))
+        edits.append(("change-weight-by-1e-13", lambda g: g.set_weight(*lib_args(kind, k0, rng), w0 + 1e-13)))
+    edits.append(("metadata-float-by-one-ulp", lambda g: (g.set_attr_to_hypergraph_metadata("x", 0.3), None)))
+    if C.weighted:
+        edits.append(("reinsert-existing-hyperedge(weight accumulates)", lambda g: _add(g, kind, k0, type(C.edges[k0][0])(1), copy.deepcopy(C.edges[k0][1]), rng)))
+    edits.append(("reinsert-existing-hyperedge-with-other-metadata", lambda g: _add(g, kind, k0, None if not C.weighted else type(C.edges[k0][0])(0), {"re": "inserted"}, rng)))
     n0 = rng.choice(list(C.nodes))
     edits.append(("node-metadata-value", lambda g: g.set_attr_to_node_metadata(n0, "a", "CHANGED")))
     edits.append(("hyperedge-metadata-value", lambda g: g.set_attr_to_edge_metadata(*lib_args(kind, k0, rng), "a", "CHANGED")))
@@ -306,10 +321,21 @@ def run_case(ctx, rng, idx):
         try:
             g = construct(rng, kind, C, labels, {"nodes_first": True, "detours": False, "hg_sorted": True})
             Sg0 = typed(observe(g))
+            if rng.random() < 0.6:
+                hash_hypergraph(g)  # the object has been hashed before it is edited: a memo must not survive the edit
+            if name == "metadata-float-by-one-ulp":
+                g.set_attr_to_hypergraph_metadata("x", 0.1 + 0.2)  # 0.30000000000000004 vs 0.3 below
+                Sg0 = typed(observe(g))
+                base_cmp = hash_hypergraph(g)
             edit(g)
             Sg = observe(g)
         except Exception as e:
             ctx.note(f"edit-raised:{kind}:{name}:{type(e).__name__}")
+            continue
+        if name == "metadata-float-by-one-ulp":
+            hv, t = hash_pure(ctx, g, kind, lambda: wit({"edit": name}))
+            ctx.check("C07:edit-changes-hash", hv != base_cmp, f"C07:{kind}:edit-kept-hash:{name}", lambda: wit({"edit": name}))
+            ctx.event("edit:" + name)
             continue
         if typed(Sg) == Sg0 or Sg0 != base_t[1]:
             ctx.note(f"edit-was-noop-or-base-missed:{name}")
@@ -320,6 +346,7 @@ def run_case(ctx, rng, idx):
     # flipped weightedness with all weights 1 (int)
     if all(v[0] == 1 and isinstance(v[0], int) for v in C.edges.values()):
         C2 = C.copy()
+        C2.replace_hgmd = getattr(C, "replace_hgmd", False)
         C2.weighted = not C.weighted
         try:
             g = construct(rng, kind, C2, labels, {"nodes_first": True, "detours": False, "hg_sorted": True})
